@@ -284,6 +284,18 @@ def rule_r2(ctx, results, facts):
         for fn, s in getattr(res, "wloops", {}).items():
             wloops.setdefault(fn, set()).update(s)
     prog = may_progress_set(facts)
+    # lower bound of the argument of every BufRead::consume call site, over all entries (None: not an integer interval)
+    consume_lo = {}
+    for res in results.values():
+        for (fn_, bb_, cal_), info in getattr(res, "calls", {}).items():
+            if cal_.endswith("BufRead::consume") or cal_.endswith("::consume"):
+                iv = info["ints"][1] if len(info["ints"]) > 1 else None
+                lo = iv[0] if iv is not None else None
+                k = (fn_, bb_)
+                if k in consume_lo:
+                    consume_lo[k] = None if (lo is None or consume_lo[k] is None) else min(lo, consume_lo[k])
+                else:
+                    consume_lo[k] = lo
     nloops = 0
     for b in facts.bodies:
         vis = visited.get(b.name)
@@ -323,6 +335,12 @@ def rule_r2(ctx, results, facts):
                 t = b.blocks[x].term
                 if t.k == "call" and t.callee is not None:
                     dn, tn = short(t.callee.name), short(t.callee.target().name)
+                    if dn.endswith("BufRead::consume") or tn.endswith("BufRead::consume"):
+                        # consume(n) is progress only if n >= 1 on every analysed path (interval of the argument from E-AI)
+                        lo = consume_lo.get((b.name, x))
+                        if lo is not None and lo >= 1:
+                            pblocks.add(x)
+                        continue
                     if dn in PROGRESS_EXTERNAL or tn in PROGRESS_EXTERNAL or tn in UNIT_GROWTH:
                         pblocks.add(x)
                     elif t.callee.target().local and t.callee.target().defk in prog:
